@@ -1564,6 +1564,7 @@ bool generate_plan(const std::string &prop, uint64_t seed, Plan &out) {
     if (prop == "C10" && (seed % 16) == 5) c10_steady_plan(rng, out);
     else if (prop == "C01" || prop == "C05" || prop == "C09" || prop == "C10") chaos_plan(rng, out, prop);
     else if (prop == "C03") c03_plan(rng, out, seed);
+    else if (prop == "C06" && seed % 4 == 3) chaos_plan(rng, out, "C06");   // the accounting half of C06 is stated for every input
     else if (prop == "C02" || prop == "C04" || prop == "C06") wf_plan(rng, out, prop);
     else if (prop == "C11") c11_plan(rng, out, seed);
     else if (prop == "C16") c16_plan(rng, out);
@@ -1641,6 +1642,7 @@ Verdict evaluate_plan(const Plan &p, Agg *agg) {
         else if (prop == "C04") ok = check_pairing(p, r, o, d);
         else {
             first_violation_of(r, "C06", v); if (v.violated) return v;
+            if (p.scenario.compare(0, 5, "chaos") == 0) return v;   // no ground truth: the all-input monitors decide
             ok = check_bodies(p, r, o, d);
             if (ok) ok = check_fidelity(p, r, "C06.next_message", o, d);   // "the bytes following the body start the next message"
         }
